@@ -745,14 +745,18 @@ package client
 // children lists are well-founded (values built by the YAML decoder are finite trees): treeH is a height function
 //@ spec func treeH(n data.NodeEdgeChildren) int
 //@ axiom tree_height: forall n data.NodeEdgeChildren, k int :: triggers(treeH(n.Children[k])) ==> (0 <= k && k < len(n.Children) ==> 0 <= treeH(n.Children[k]) && treeH(n.Children[k]) < treeH(n))
+// idsOK(n, p): n hangs under p, no id in the subtree is blank, every child hangs under its node (fixpoint equation)
+//@ spec func idsOK(n data.NodeEdgeChildren, p string) bool
+//@ axiom idsOK_def: forall n data.NodeEdgeChildren, p string :: triggers(idsOK(n, p)) ==> (idsOK(n, p) <==> (p != "" && n.Parent == p && n.ID != "" && (forall k int :: 0 <= k && k < len(n.Children) ==> idsOK(n.Children[k], n.ID))))
 //@ func checkIDs
 //@   props C15
 //@   local node data.NodeEdgeChildren#1
 //@   local parent string#1
 //@   decreases treeH(node)
-//@   ensures [C15] res0 == nil ==> parent != "" && node.Parent == parent && node.ID != ""
+//@   ensures [C15] accepted-only-if-ids-consistent: res0 == nil ==> idsOK(node, parent)
 //@   loop 1:
 //@     invariant -1 <= rangeindex && rangeindex < len(node.Children) || rangeindex == -1
+//@     invariant [C15] forall j int :: 0 <= j && j <= rangeindex ==> idsOK(node.Children[j], node.ID)
 //@     decreases len(node.Children) - rangeindex
 
 // ImportNodes: the top node gets the given parent and the " (import)" marker on its description points and nothing
@@ -772,6 +776,7 @@ package client
 //@   modifies pointee(v), allof(data.NodeEdgeChildren), allof(data.Point)
 //@ func ImportNodes$1
 //@   props C15
+//@   local node data.NodeEdgeChildren#1
 //@   summary
 //@   self importHelper
 //@   modifies state(nc)
@@ -782,6 +787,9 @@ package client
 //@     decreases len(node.Children) - rangeindex
 //@ func ImportNodes
 //@   props C15
+//@   local nc *nats.Conn#1
+//@   local parent string#1
+//@   local imp client.SiotExport#1
 //@   modifies state(nc), allof(data.NodeEdgeChildren), allof(data.Point)
 //@   assert [C15] top-node-gets-parent: len(imp.Nodes) >= 1 && imp.Nodes[0].Parent == parent at "importHelper(imp.Nodes[0])"
 //@   loop 1:
